@@ -175,7 +175,7 @@ class G:
             return self.leaf(readable, want_unsigned)
         k = r.choice(["sl", "sl", "cat", "rep", "cmp", "cmp", "bw", "bw", "mux", "shr", "inv", "neg", "arr", "slx"])
         if k == "sl":
-            cands = [i for i in readable if self.sigs[i]["w"] > 1]
+            cands = [i for i in readable if self.sigs[i]["w"] > 1 or self.sigs[i]["s"]]
             if not cands:
                 return self.leaf(readable, want_unsigned)
             i = r.choice(cands)
